@@ -58,6 +58,11 @@ impl Value {
             return Ok(ValToUsize::NaN);
         };
 
+        if matches!(number, Number::Float(..)) {
+            // a float is never an index; the conversion below has no rounding rule for it
+            return Ok(ValToUsize::NaN);
+        }
+
         Ok(ValToUsize::Ok(number.try_into()?))
     }
 
